@@ -1,1 +1,182 @@
-fn main() {}
+//! C06 — state resolution is deterministic and independent of input and hash-map order.
+//!
+//! Requests (`R` = number of repetitions of the real call, ignored by the Lean side; `ord` steers
+//! the iteration orders the Lean model uses, ignored by the implementation):
+//!   `c06.resolve <R> <ver> <ord> J`   J as in C07
+//!   `c06.topo <R> <ord> J`
+//! The real function is called R times from several threads, every call with freshly built
+//! HashMaps/HashSets (fresh `RandomState` keys, so iteration orders differ) and with the state-set
+//! and auth-chain arguments permuted. T3: all results are equal; resolving one set, or n copies of
+//! one set, returns that set. The answer compared with the model is the first result.
+#[path = "../../h-c07/src/sr.rs"]
+mod sr;
+
+use std::collections::{HashMap, HashSet};
+
+use h_lib::{h_util, Outcome, Req, Rng};
+use ruma_common::OwnedEventId;
+
+fn parse_one(toks: &[&str]) -> Option<serde_json::Value> {
+    let mut it = toks.iter();
+    let v = h_util::parse_tokens(&mut it)?;
+    if it.next().is_some() {
+        return None;
+    }
+    Some(v)
+}
+
+fn seed_of(req: &str) -> u64 {
+    let mut h: u64 = 0xcbf2_9ce4_8422_2325;
+    for b in req.as_bytes() {
+        h ^= *b as u64;
+        h = h.wrapping_mul(0x0000_0100_0000_01b3);
+    }
+    h
+}
+
+const THREADS: usize = 4;
+
+/// One call of the real `resolve` on freshly built containers, arguments permuted by `rng`.
+fn one_resolve(sc: &sr::Scenario, rng: &mut Rng) -> String {
+    let rules = sr::rules_of(sc.ver);
+    let mut evs = sc.events.clone();
+    rng.shuffle(&mut evs);
+    let store: sr::Store = evs.into_iter().map(|e| (e.id.clone(), e)).collect();
+    let mut sets = sc.sets.clone();
+    rng.shuffle(&mut sets);
+    let maps: Vec<sr::SMap> = sets
+        .iter()
+        .map(|s| {
+            let mut s = s.clone();
+            rng.shuffle(&mut s);
+            s.into_iter().map(|(t, k, i)| ((t.into(), k), i)).collect()
+        })
+        .collect();
+    let mut chains = sc.chains.clone();
+    rng.shuffle(&mut chains);
+    let chain_sets: Vec<HashSet<OwnedEventId>> = chains
+        .into_iter()
+        .map(|mut c| {
+            rng.shuffle(&mut c);
+            c.into_iter().collect()
+        })
+        .collect();
+    sr::show_state(&sr::run_resolve(&rules, &store, &maps, chain_sets))
+}
+
+fn repeat<T: Sync>(input: &T, reps: usize, seed: u64, f: impl Fn(&T, &mut Rng) -> String + Sync) -> Vec<String> {
+    let per = reps.div_ceil(THREADS).max(1);
+    let mut all = Vec::new();
+    std::thread::scope(|s| {
+        let hs: Vec<_> = (0..THREADS)
+            .map(|t| {
+                let f = &f;
+                s.spawn(move || {
+                    let mut out = Vec::new();
+                    for i in 0..per {
+                        let mut rng = Rng::new(seed ^ ((t as u64) << 32) ^ i as u64);
+                        out.push(h_util::guarded(|| f(input, &mut rng)).unwrap_or_else(|_| "panic".into()));
+                    }
+                    out
+                })
+            })
+            .collect();
+        for h in hs {
+            all.extend(h.join().unwrap_or_else(|_| vec!["panic".into()]));
+        }
+    });
+    all
+}
+
+fn run(req: &str) -> Outcome {
+    let toks: Vec<&str> = req.split(' ').collect();
+    let Some(reps) = toks.get(1).and_then(|r| r.parse::<usize>().ok()) else { return Outcome::bad() };
+    match toks[0] {
+        "c06.resolve" => {
+            let Some(sc) = toks.get(2..).and_then(sr::parse_resolve_args) else { return Outcome::bad() };
+            let rules = sr::rules_of(sc.ver);
+            let store = sc.store();
+            let first = sr::show_state(&sr::run_resolve(&rules, &store, &sc.state_maps(), sc.chain_sets()));
+            let mut o = Outcome::new(first.clone());
+            let all = repeat(&sc, reps, seed_of(req), one_resolve);
+            for (i, r) in all.iter().enumerate() {
+                if *r != first {
+                    o.t3.push(format!("call {i} of {} (fresh hash seeds, permuted state-set/auth-chain arguments, thread {}) returned a different state map than the first call: {} vs {}", all.len(), i / reps.div_ceil(THREADS).max(1), &r[..r.len().min(400)], &first[..first.len().min(400)]));
+                    break;
+                }
+            }
+            // a single state set, and n identical ones, resolve to that set
+            for (idx, set) in sc.state_maps().iter().enumerate() {
+                let want = sr::show_state(&Ok(set.clone()));
+                let chain = sc.chain_sets().get(idx).cloned().unwrap_or_default();
+                let single = sr::show_state(&sr::run_resolve(&rules, &store, std::slice::from_ref(set), vec![chain.clone()]));
+                if single != want {
+                    o.t3.push(format!("resolving state set {idx} alone did not return it: {single} vs {want}"));
+                }
+                let many = vec![set.clone(), set.clone(), set.clone()];
+                let ident = sr::show_state(&sr::run_resolve(&rules, &store, &many, vec![chain.clone(), chain.clone(), chain]));
+                if ident != want {
+                    o.t3.push(format!("resolving three copies of state set {idx} did not return it: {ident} vs {want}"));
+                }
+            }
+            o
+        }
+        "c06.topo" => {
+            let Some(v) = toks.get(3..).and_then(parse_one) else { return Outcome::bad() };
+            let Some(case) = sr::TopoCase::parse(&v) else { return Outcome::bad() };
+            let first = sr::show_ids(&sr::run_topo(&case.graph(), &case.keys()));
+            let mut o = Outcome::new(first.clone());
+            let all = repeat(&case, reps, seed_of(req), |c, rng| {
+                // rebuild the maps in a shuffled insertion order with fresh hashers
+                let mut nodes: Vec<_> = c.graph().into_iter().collect();
+                rng.shuffle(&mut nodes);
+                let g: HashMap<OwnedEventId, HashSet<OwnedEventId>> = nodes
+                    .into_iter()
+                    .map(|(n, es)| {
+                        let mut es: Vec<_> = es.into_iter().collect();
+                        rng.shuffle(&mut es);
+                        (n, es.into_iter().collect())
+                    })
+                    .collect();
+                sr::show_ids(&sr::run_topo(&g, &c.keys()))
+            });
+            for (i, r) in all.iter().enumerate() {
+                if *r != first {
+                    o.t3.push(format!("call {i} of {} (fresh hash seeds) returned a different order than the first call: {r} vs {first}", all.len()));
+                    break;
+                }
+            }
+            o
+        }
+        _ => Outcome::bad(),
+    }
+}
+
+fn gen(rng: &mut Rng, n: usize, tier: &str) -> Vec<Req> {
+    let thorough = tier == "thorough";
+    let reps = if thorough { 64 } else { 8 };
+    let mut out = Vec::new();
+    for ver in [6u32, 11] {
+        let sc = sr::f4_witness(ver);
+        out.push(Req::new(format!("c06.resolve {reps} {ver} {} {}", rng.below(8), sc.payload()), "f4witness"));
+    }
+    for i in 0..n / 2 {
+        let wild = i % 4 == 3;
+        let case = sr::gen_topo(rng, wild);
+        out.push(Req::new(format!("c06.topo {reps} {} {}", rng.below(8), case.payload()), if wild { "topo-wild" } else { "topo" }));
+    }
+    let mut stats: std::collections::BTreeMap<&'static str, usize> = Default::default();
+    for i in 0..n {
+        let (sc, st) = sr::gen_room(rng, thorough && i % 3 == 0);
+        for (k, v) in st {
+            *stats.entry(k).or_default() += v;
+        }
+        out.push(Req::new(format!("c06.resolve {reps} {} {} {}", sc.ver, rng.below(8), sc.payload()), "room"));
+    }
+    eprintln!("generator statistics: {stats:?}");
+    out
+}
+
+fn main() {
+    h_lib::std_main(None, &gen, &run);
+}
